@@ -3,7 +3,12 @@
 # parallel) and rewrites seeded/MATRIX.md and the caught_by field of every meta.json.
 cd "$(dirname "$0")/.."
 log=$(mktemp /tmp/seedmatrix.XXXXXX)
-ls seeded/*/patch.diff | xargs -P ${JOBS:-12} -n 1 tools/par_try.sh > $log 2>&1
+# OWN=1: run only the check of the property each change was seeded for (a twentieth of the work)
+if [ -n "${OWN:-}" ]; then
+  for s in seeded/*/patch.diff; do id=$(basename $(dirname $s)); echo "$s ${id%-*}"; done | xargs -P ${JOBS:-12} -n 2 tools/par_try.sh > $log 2>&1
+else
+  ls seeded/*/patch.diff | xargs -P ${JOBS:-12} -n 1 tools/par_try.sh > $log 2>&1
+fi
 out=seeded/MATRIX.md
 echo "| seed | property | checks that report it (rule of the first report) |" > $out
 echo "|---|---|---|" >> $out
